@@ -466,7 +466,14 @@ def gen_group(rng):
     hots = ["s"] + [g for g, d in enumerate(durs) if "hot" in d]
     rng.shuffle(hots)
     acts, imm, subj_raise, dur_raise = [], [], [], []
-    if tap:
+    outer_only = tap and rng.random() < 0.2     # the consumer stops listening for new groups but keeps its group subscriptions
+    if outer_only:
+        imm = [True] * 8
+        mid = [t for t in times[:-1] if t > SUB_AT] or times
+        acts.append([rng.choice(mid) + rng.choice([0, 3, 5]), "dispose"])
+        if rng.random() < 0.3:
+            acts.append([some_time(), "gdisp", rng.randrange(0, 3)])
+    elif tap:
         ng = 8
         imm = [rng.random() < 0.85 for _ in range(ng)]
         if rng.random() < 0.25:
@@ -808,6 +815,58 @@ def oracle_group(case, out):
                 return f"group #{g} (duration = group.skip({d['grp']})) received {len(ns)} elements, it must expire with its {d['grp'] + 1}-th"
             if len(ns) == d["grp"] + 1 and (g not in closed or closed[g][0] != ns[-1][0]):
                 return f"group #{g} (duration = group.skip({d['grp']})) received its {d['grp'] + 1}-th element @{ns[-1][0]} but ended {closed.get(g)}"
+    # the source stays subscribed exactly as long as the property needs it (C02 proviso): until its terminal, a failure of the
+    # operator, or - once the outer subscription is disposed - until the last group subscriber is gone (terminated / unsubscribed)
+    if tap:
+        INF = float("inf")
+        tl = []        # (time, rank, seq, kind, g): rank 0 = caused by a hot message of that instant, 1.. = harness action order
+        for pos, e in enumerate(out["log"]):
+            if e[1] == "O" and e[2][0] == "G" and (e[2][1] >= len(case["imm"]) or case["imm"][e[2][1]]):
+                tl.append((e[0], 0, pos, "sub", e[2][1]))
+            elif e[1] == "S" and e[3][0] != "N":
+                tl.append((e[0], 0, pos, "end", e[2]))
+        ann_t = {e[2][1]: e[0] for e in out["log"] if e[1] == "O" and e[2][0] == "G"}
+        for i, a in enumerate(case["acts"]):
+            if a[0] < SUB_AT:      # (actions at 200 are scheduled after the subscription at 200, hence effective)
+                continue
+            if a[1] == "dispose":
+                tl.append((a[0], 1 + i, 0, "dispose", None))
+            elif a[1] == "gsub" and a[2] in ann_t and ann_t[a[2]] <= a[0]:
+                tl.append((a[0], 1 + i, 0, "sub", a[2]))
+            elif a[1] == "gdisp":
+                tl.append((a[0], 1 + i, 0, "end", a[2]))
+        tl.sort(key=lambda x: (x[0], x[1], x[2]))
+        holders, had, primary, release = set(), set(), False, None
+        term_t = {}
+        for e in out["log"]:
+            if e[1] == "S" and e[3][0] != "N":
+                term_t.setdefault(e[2], e[0])
+        for t, _, _, kind, g in tl:
+            if kind == "sub":
+                # (a subscriber whose terminal arrives in the instant of its subscription - replay on an ended group, or an
+                #  immediately expiring group - is gone at once)
+                if g not in had and release is None and not (g in term_t and term_t[g] <= t):
+                    holders.add(g)
+                had.add(g)
+            elif kind == "end":
+                holders.discard(g)
+            else:
+                primary = True
+            if primary and not holders and release is None:
+                release = t
+        stops = [x for x in ([first_term[0]] if first_term else []) + [t for _, t, _ in error_alls] + ([release] if release is not None else [])]
+        lenient = {m[0] for dd in durs if "hot" in dd for m in dd["hot"] if m[1][0] == "E"}
+        must = min(stops) if stops else None
+        if must is None:
+            if src_end is not None and src_end not in lenient:
+                return f"source unsubscribed @{src_end} although it has not terminated, the operator has not failed and " + (
+                    f"group subscribers {sorted(holders)} are still subscribed" if primary else "the outer subscription is not disposed")
+        else:
+            if src_end is not None and src_end < must and src_end not in lenient:
+                return (f"source unsubscribed @{src_end}: too early - outer disposed={primary}, group subscribers still subscribed and open "
+                        f"until {release if release is not None else 'the source terminal'} (expected release @{must})")
+            if (src_end is None or src_end > must) and not any(x < must for x in lenient):
+                return f"source still subscribed after @{must} (terminal / failure / last group subscriber gone after the outer dispose); unsubscribed @{src_end}"
     # subscribers: an immediate, never disposed subscriber sees exactly the writer's record; any other a part of it
     if tap:
         slog = {}
